@@ -198,6 +198,16 @@ def scale(repo, tier, seed):
 
 
 CONTRACTS = []
+def _c01_variable_bounds():
+    """Scale invariance and the feasibility-transfer witnesses assume that the ONLY bounds on a variable are the constraints of the
+    templates and non-negativity: an absolute upper bound on the variables (a "never active" solver-robustness cap) is not scale
+    free.  C01's contract of Optimizer.create_lp_variables (lower bound 0, NO upper bound), re-run under this property."""
+    from contracts import C01
+    from contracts.common import relabelled
+    return relabelled([c for c in C01.CONTRACTS if type(c).__name__ == "LowBound"], "C12")
+
+
+CONTRACTS = CONTRACTS + _c01_variable_bounds()
 EXTRA = [monotonicity, scale]
 TRUSTED = [
     "CBC returns the optimum of the model (monotonicity / invariance of the OPTIMUM follows from the feasibility transfer proved here plus C02's objective structure)",
